@@ -471,12 +471,12 @@ def _python_calendar_table(P: Program, rep: Report) -> None:
     rep.floor("R08.9 evaluations", n, 900)
 
 
-def _time_agg_date_table(P: Program, rep: Report) -> None:
+def _time_agg_date_table(P: Program, rep: Report, rule: str = "R08.8") -> None:
     """R08.8  time_agg of a Date to each period indicator: the text of macro vtl_time_agg_date is evaluated (concrete SQL-expression
     evaluator) for every day around New Year of six years (52- and 53-week ISO years), all month bounds and the leap days, and the
     period it writes is compared with the calendar (sa/calx.py): the ISO week belongs to the ISO year, day 366 exists in leap years."""
     from sa import calx, sqlconc, sqlexpr, sqlx as _sqlx
-    rep.rule("R08.8", "time_agg(Date -> A/S/Q/M/W/D): the period written for a date is the calendar period containing it (macro text evaluated over a grid)")
+    rep.rule(rule, "time_agg(Date -> A/S/Q/M/W/D): the period written for a date is the calendar period containing it (macro text evaluated over a grid)")
     macros = _sqlx.load_macros(P)
     name = "vtl_time_agg_date"
     if name not in macros:
@@ -491,17 +491,17 @@ def _time_agg_date_table(P: Program, rep: Report) -> None:
             except sqlconc.SqlError as ex:
                 got = f"<error {str(ex)[:30]}>"
             except sqlexpr.ParseError as ex:
-                raise AnalysisError(f"R08.8: {name} is outside the SQL evaluator's language: {ex}")
+                raise AnalysisError(f"{rule}: {name} is outside the SQL evaluator's language: {ex}")
             n += 1
             want = calx.period_of_date(d, ind)
             gp = calx.parse_period(got) if got is not None else ("null",)
             if gp != want and shown < 8:
                 shown += 1
-                rep.add(Finding("R08.8", f"R08.8/{ind}/{d.isoformat()}", mac.file, mac.line, f"macro:{name}",
+                rep.add(Finding(rule, f"{rule}/{ind}/{d.isoformat()}", mac.file, mac.line, f"macro:{name}",
                                 f"time_agg of the date {d.isoformat()} to `{ind}` writes {got!r}; the calendar period containing that date is {want} "
                                 + ("(the ISO week belongs to the ISO year, which differs from the calendar year around New Year)" if ind == "W" else "")))
-    rep.instance("R08.8", "dates-x-indicators", sample={"evaluated": n})
-    rep.floor("R08.8 evaluations", n, 1200)
+    rep.instance(rule, "dates-x-indicators", sample={"evaluated": n})
+    rep.floor(f"{rule} evaluations", n, 1200)
 
 
 def shift_cells(P: Program, rep: Report, rule: str, macros: Dict[str, Any], sql_limits: Dict[str, Any]) -> int:
